@@ -38,7 +38,7 @@ def _calc_N(Q: np.ndarray, n: np.ndarray) -> np.ndarray:
     """Return N as described by Equation 31."""
     Q = normalised(Q)
     n = normalised(n)
-    if is_small(radians(angle_between_vectors(Q, n))):
+    if is_small(sin(radians(angle_between_vectors(Q, n)))):
         # Replace the reference vector with an alternative vector from Eq.(78)
         def __key_func(v):
             return v[1]  # Workaround for mypy issue #9590
